@@ -823,7 +823,8 @@ def judge_single(sc: Scenario, o, ident=None):
     # communication torn down
     if F['open_socks']:
         v.append(('C08_CommClosed', f'{F["open_socks"]} of {F["nsocks"]} sockets of the filter are still open after run() ended '
-                  f'({"; ".join(map(str, causes[:2]))})', {'kind': 'comm_open', 'stage': stage0 or 'other'}))
+                  f'({"; ".join(map(str, causes[:2]))})',
+                  {'kind': 'comm_open', 'stage': stage0 or 'other', 'where': sc.planF.get('init', '') if stage0 == 'init' else ''}))
     if not F['stop_evt']:
         v.append(('C08_StopEvtSet', 'stop_evt is not set after run() ended', {'kind': 'stop_evt'}))
     # return vs raise, announcement: judged when there is one reason of ending (or all reasons agree)
